@@ -46,6 +46,19 @@ def harnesses():
                              domain=UFDOM, free_bits=64 * (nl + na + nb), stubs=UF, abstract=True, fns=["addmul"],
                              role="c15::addmul_uf", timeout=2400,
                              covers_required=(["overflows"] if can_over else []) + (["fits"] if nl > 0 or not can_over else [])))
+    SMALLDOM = ("unit-limb sub-domain: every limb of one operand 0 or 1, the other operand and the accumulator FULL, one harness per operand "
+                "order; UF layer, exact on this sub-domain (all products fixed by the axioms 0*x = 0, 1*x = x)")
+    for (nl, na, nb, tier) in [(2, 2, 1, "quick"), (3, 2, 2, "thorough")]:   # (4,2,2), (3,3,2), (4,3,3), (5,3,3): no result in 1500 s
+        w = max(nl, na + nb) + 1
+        for sw in (0, 1):
+            out.append(H("c15_addmul_unit_%d_%d_%d_%s" % (nl, na, nb, "ba" if sw else "ab"), "C15",
+                         "c15::addmul_unit::<%d,%d,%d,%d,%d>" % (nl, na, nb, w, sw),
+                         unwind=w + 2, tier=tier, inst="acc %d, a %d, b %d limbs" % (nl, na, nb), domain=SMALLDOM,
+                         free_bits=64 * (nl + nb) + na, fns=["addmul", "addmul_nx1", "add_nx1"], stubs=UF,
+                         role="c15::addmul_unit", timeout=3600, covers_required=["overflows", "fits"]))
+    # (an ENUMERATED-shape variant - concrete {0,1} limb patterns with one symbolic word and a symbolic accumulator - was probed to
+    #  keep addmul's trimming concrete: 16 calls at (3,2,2) still took > 700 s; each addmul call over Rust slices costs CBMC tens
+    #  of seconds whatever is symbolic - not kept)
     for n in range(0, 6):
         tier = "quick" if n <= 2 else "thorough"
         out.append(H("c15_addmul_n_uf_%d" % n, "C15", "c15::addmul_n_uf::<%d,%d>" % (n, 2 * n + 1), unwind=2 * n + 3,
